@@ -1,7 +1,143 @@
-//! C04 harness (stub until built)
+//! C04: emitted DirectX HLSL is accepted by the front end and is a fixpoint.
+//!
+//! request : C04.fix \t <gen:<seed> | disk:<root>|<entry> | text:<hex of source>>
+//! observe : first-generation digest, or `reject:<stage>` when the source itself is not accepted
+//! oracle  : compile(P, dx, no-pipeline) = G1; compile(G1.text, dx, no-pipeline) must succeed and be
+//!           byte-identical to G1, with every resource on the same binding slot (group, name, location, count).
+use crate::compile_util::*;
+use crate::declgen;
+use crate::progen::*;
 use crate::util::*;
 
-pub fn run(_args: &Args, _out: &mut Out) {
-    eprintln!("C04: harness not built yet");
-    std::process::exit(2);
+fn first_generation(id: &str) -> Option<CompileOutcome> {
+    if let Some(seed) = id.strip_prefix("gen:") {
+        let seed: u64 = seed.parse().ok()?;
+        let prog = gen_program(&mut Rng::new(seed), &GenOpts::default());
+        Some(compile_src(&render(&prog, &|_| true), Tgt::Dx, Mode::NoPipeline))
+    } else if let Some(seed) = id.strip_prefix("decl:") {
+        let seed: u64 = seed.parse().ok()?;
+        Some(compile_src(&declgen::gen_source(&mut Rng::new(seed)), Tgt::Dx, Mode::NoPipeline))
+    } else if let Some(rest) = id.strip_prefix("disk:") {
+        let (root, entry) = rest.split_once('|')?;
+        Some(compile_disk(root, entry, Tgt::Dx, Mode::NoPipeline))
+    } else if let Some(h) = id.strip_prefix("text:") {
+        let bytes = unhex(h)?;
+        Some(compile_src(&String::from_utf8_lossy(&bytes), Tgt::Dx, Mode::NoPipeline))
+    } else {
+        None
+    }
+}
+
+fn first_diff(a: &str, b: &str) -> String {
+    for (i, (la, lb)) in a.lines().zip(b.lines()).enumerate() {
+        if la != lb {
+            return format!("line {}: `{}` became `{}`", i + 1, la.trim(), lb.trim());
+        }
+    }
+    format!("line counts {} vs {}", a.lines().count(), b.lines().count())
+}
+
+fn run_one(id: &str, out: &mut Out, hist: &mut Hist) {
+    let req = format!("C04.fix\t{}", id);
+    let Some(g1) = first_generation(id) else {
+        out.case(&req, "bad-request", "SKIP:bad request");
+        return;
+    };
+    match g1 {
+        CompileOutcome::Err(e) => {
+            hist.add("source-rejected");
+            let stage = if e.contains("hlsl generate") || e.contains("hlsl format") { "export" } else { "front-end" };
+            out.case(&req, &format!("reject:{}", stage), "SKIP:source not accepted");
+        }
+        CompileOutcome::Panic(p) => {
+            hist.add("panic-first-generation");
+            out.case(&req, "panic", &format!("FAIL:panic {}", p));
+        }
+        CompileOutcome::Ok(ps) => {
+            let p1 = &ps[0];
+            let text1 = p1.text();
+            let g2 = compile_src(&text1, Tgt::Dx, Mode::NoPipeline);
+            let oracle = match &g2 {
+                CompileOutcome::Ok(ps2) => {
+                    let p2 = &ps2[0];
+                    if p2.data != p1.data {
+                        hist.add("not-fixpoint-text");
+                        format!("FAIL:second generation differs: {}", first_diff(&text1, &p2.text()))
+                    } else if p2.slots != p1.slots {
+                        hist.add("not-fixpoint-slots");
+                        format!("FAIL:binding slots differ between generations: {:?} vs {:?}", p1.slots, p2.slots)
+                    } else {
+                        hist.add("fixpoint");
+                        "ok".to_string()
+                    }
+                }
+                CompileOutcome::Err(e) => {
+                    hist.add("output-rejected");
+                    format!("FAIL:emitted HLSL is rejected: {}", one_line(&e.chars().take(200).collect::<String>()))
+                }
+                CompileOutcome::Panic(p) => {
+                    hist.add("panic-second-generation");
+                    format!("FAIL:panic {}", p)
+                }
+            };
+            out.case(&req, &format!("ok:{}", p1.digest()), &oracle);
+        }
+    }
+}
+
+/// debugging aid: `harness c04 dump <id>` prints source, both generations and metadata
+fn dump(id: &str) {
+    let src = if let Some(seed) = id.strip_prefix("decl:") {
+        declgen::gen_source(&mut Rng::new(seed.parse().unwrap()))
+    } else if let Some(seed) = id.strip_prefix("gen:") {
+        render(&gen_program(&mut Rng::new(seed.parse().unwrap()), &GenOpts::default()), &|_| true)
+    } else {
+        String::new()
+    };
+    eprintln!("=== source\n{}", src);
+    match compile_src(&src, Tgt::Dx, Mode::NoPipeline) {
+        CompileOutcome::Ok(ps) => {
+            eprintln!("=== generation 1\n{}\n=== metadata 1\n{}", ps[0].text(), ps[0].metadata);
+            match compile_src(&ps[0].text(), Tgt::Dx, Mode::NoPipeline) {
+                CompileOutcome::Ok(p2) => eprintln!("=== generation 2\n{}\n=== metadata 2\n{}", p2[0].text(), p2[0].metadata),
+                other => eprintln!("=== generation 2: {:?}", other),
+            }
+        }
+        other => eprintln!("=== generation 1: {:?}", other),
+    }
+}
+
+pub fn run(args: &Args, out: &mut Out) {
+    let mut hist = Hist::default();
+    if args.extra.first().map(|s| s == "dump").unwrap_or(false) {
+        dump(&args.extra[1]);
+        return;
+    }
+    if let Some(lines) = args.request_lines() {
+        for line in lines {
+            if let Some(id) = line.strip_prefix("C04.fix\t") {
+                run_one(id, out, &mut hist);
+            }
+        }
+        out.stat(&format!("{{\"mode\":\"replay\",\"hist\":{}}}", hist.json()));
+        return;
+    }
+    let repo = std::env::var("VERIF_REPO").unwrap_or_else(|_| "/repo".into());
+    let mut rng = Rng::new(args.seed);
+    let n = args.n.unwrap_or(if args.thorough() { 5000 } else { 300 });
+    for _ in 0..n {
+        run_one(&format!("decl:{}", rng.next() >> 16), out, &mut hist);
+    }
+    for _ in 0..n / 3 {
+        run_one(&format!("gen:{}", rng.next() >> 16), out, &mut hist);
+    }
+    let corpus = repo_corpus(&repo);
+    let take = if args.thorough() { corpus.len() } else { corpus.len().min(31) };
+    let step = (corpus.len() / take.max(1)).max(1);
+    for (i, (root, entry)) in corpus.iter().enumerate() {
+        if i % step == 0 {
+            run_one(&format!("disk:{}|{}", root, entry), out, &mut hist);
+        }
+    }
+    out.stat(&format!("{{\"generated\":{},\"hist\":{}}}", n + n / 3, hist.json()));
 }
